@@ -218,6 +218,12 @@ type VLink struct {
 	lite    bool
 	closing bool
 	started time.Time
+
+	// Knobs of a test double (X03): what BytesIn reports, a send the link refuses, a callback when the link is
+	// closed (it gets the caller's log function, as the real link runs it).
+	BytesInFn func() uint64
+	SendHook  func(prio bool) error
+	OnClose   func(log func())
 }
 
 var _ peering.Link = &VLink{}
@@ -249,6 +255,11 @@ func (l *VLink) SendPriority(f frame.Frame) error { return l.send(f, true) }
 func (l *VLink) Send(f frame.Frame) error { return l.send(f, false) }
 
 func (l *VLink) send(f frame.Frame, prio bool) error {
+	if l.SendHook != nil {
+		if err := l.SendHook(prio); err != nil {
+			return err // the caller keeps the frame, as with the real link
+		}
+	}
 	// What the real link writer does: take the frame with the link-frame margins
 	// (it fails - and the frame is lost - when the buffer has no room for them),
 	// serialise, then release the frame.
@@ -292,8 +303,13 @@ func (l *VLink) Latency() uint16 { return l.latency }
 // AddMeasuredLatency is ignored.
 func (l *VLink) AddMeasuredLatency(time.Duration) {}
 
-// BytesIn returns 0.
-func (l *VLink) BytesIn() uint64 { return 0 }
+// BytesIn returns 0 (or what the test double says).
+func (l *VLink) BytesIn() uint64 {
+	if l.BytesInFn != nil {
+		return l.BytesInFn()
+	}
+	return 0
+}
 
 // BytesOut returns 0.
 func (l *VLink) BytesOut() uint64 { return 0 }
@@ -306,12 +322,18 @@ func (l *VLink) FlowControlIndicator() frame.FlowControlFlag {
 // IsClosing returns whether the link was closed.
 func (l *VLink) IsClosing() bool { return l.closing }
 
+// SetClosing marks the link as closing without removing it (somebody else is closing it).
+func (l *VLink) SetClosing() { l.closing = true }
+
 // Close removes the link.
 func (l *VLink) Close(log func()) {
 	if l.closing {
 		return
 	}
 	l.closing = true
+	if l.OnClose != nil {
+		l.OnClose(log)
+	}
 	l.owner.Peer.RemoveLink(l)
 }
 
